@@ -111,7 +111,7 @@ func init() {
 	externals["(*strings.Builder).String"] = func(fr *frame, args []value) value {
 		s := (*args[0].(*value)).(structure)
 		// fields: addr *Builder, buf []byte
-		return bytesToString(s[1].([]value))
+		return mkString(s[1].([]value))
 	}
 	externals["internal/abi.NoEscape"] = func(fr *frame, args []value) value { return args[0] }
 	externals["regexp.MustCompile__opaque"] = func(fr *frame, args []value) value {
@@ -139,7 +139,7 @@ type EnvConfig struct {
 	Env  map[string]string
 }
 
-var defaultEnv = EnvConfig{Args: []string{"/usr/local/bin/app"}, Home: "/home/u", Cwd: "/work/dir", Env: map[string]string{}}
+var defaultEnv = EnvConfig{Args: []string{"/usr/local/bin/app"}, Home: "/nonexistent-home", Cwd: "/tmp", Env: map[string]string{}}
 
 func (i *interpreter) setupEnv() {
 	osp := i.prog.ImportedPackage("os")
@@ -361,4 +361,154 @@ func init() {
 
 func (i *interpreter) globalAddr(pkg, name string) *value {
 	return i.globals[i.prog.ImportedPackage(pkg).Var(name)]
+}
+
+// runRealCode is returned by a conditional stub to run the function's SSA.
+type runRealCode struct{}
+
+// hasSym reports whether v contains a symbolic scalar or string (shallow
+// through interfaces, slices, structs; pointers are not followed).
+func hasSym(v value, depth int) bool {
+	if depth > 4 {
+		return false
+	}
+	switch v := v.(type) {
+	case sv, symstr:
+		return true
+	case iface:
+		return hasSym(v.v, depth+1)
+	case []value:
+		for _, e := range v {
+			if hasSym(e, depth+1) {
+				return true
+			}
+		}
+	case structure:
+		for _, e := range v {
+			if hasSym(e, depth+1) {
+				return true
+			}
+		}
+	case array:
+		for _, e := range v {
+			if hasSym(e, depth+1) {
+				return true
+			}
+		}
+	case tuple:
+		for _, e := range v {
+			if hasSym(e, depth+1) {
+				return true
+			}
+		}
+	}
+	return false
+}
+
+// opaqueString is the result of formatting symbolic operands: unconstrained
+// bytes (nothing can be proved about them), so that no verdict silently
+// depends on text the engine did not compute.
+func (i *interpreter) opaqueString(n int) value {
+	cells := make([]value, n)
+	for k := range cells {
+		cells[k] = i.freshVar(types.Uint8, "o")
+	}
+	return mkString(cells)
+}
+
+// symFormat formats like fmt.Sprintf when some operand is symbolic: verbs
+// %s %v %q on string-like operands are computed exactly (%q by running the
+// real strconv.Quote symbolically); concrete operands are formatted by the
+// real fmt code one verb at a time; anything else yields an opaque string.
+func (fr *frame) symFormat(format string, ops []value) (value, bool) {
+	var out []value
+	lit := func(s string) { out = append(out, strCells(s)...) }
+	argi := 0
+	for p := 0; p < len(format); {
+		c := format[p]
+		if c != '%' {
+			lit(string(c))
+			p++
+			continue
+		}
+		if p+1 < len(format) && format[p+1] == '%' {
+			lit("%")
+			p += 2
+			continue
+		}
+		q := p + 1
+		for q < len(format) && strings.IndexByte("+-# 0123456789.", format[q]) >= 0 {
+			q++
+		}
+		if q >= len(format) || argi >= len(ops) {
+			return nil, false
+		}
+		verb := format[q]
+		spec := format[p : q+1]
+		op := ops[argi]
+		argi++
+		p = q + 1
+		ifc, _ := op.(iface)
+		if !hasSym(op, 0) {
+			sprintf := fr.i.prog.ImportedPackage("fmt").Func("Sprintf")
+			r := call(fr.i, fr, token.NoPos, sprintf, []value{spec, []value{op}})
+			out = append(out, strCells(r)...)
+			continue
+		}
+		if !isStr(ifc.v) || spec != "%"+string(verb) {
+			return nil, false
+		}
+		switch verb {
+		case 's', 'v':
+			out = append(out, strCells(ifc.v)...)
+		case 'q':
+			quote := fr.i.prog.ImportedPackage("strconv").Func("Quote")
+			r := call(fr.i, fr, token.NoPos, quote, []value{ifc.v})
+			out = append(out, strCells(r)...)
+		default:
+			return nil, false
+		}
+	}
+	return mkString(out), true
+}
+
+func init() {
+	fmtOpaque := func(argIdx int, wrapErr bool) externalFn {
+		return func(fr *frame, args []value) value {
+			sym := false
+			for _, a := range args {
+				if hasSym(a, 0) {
+					sym = true
+				}
+			}
+			if !sym || fr.i.path == nil {
+				return runRealCode{}
+			}
+			var s value
+			done := false
+			if argIdx == 1 {
+				if f, ok := args[0].(string); ok {
+					if r, ok := fr.symFormat(f, args[1].([]value)); ok {
+						s, done = r, true
+						fr.i.stubHits["fmt:verbs-on-symbolic-strings-computed-exactly"]++
+					}
+				}
+			}
+			if !done {
+				fr.i.stubHits["fmt:opaque-result-for-symbolic-operands"]++
+				s = fr.i.opaqueString(4)
+			}
+			if wrapErr {
+				// *errors.errorString{s}
+				et := fr.i.prog.ImportedPackage("errors").Type("errorString").Type()
+				var cell value = structure{s}
+				return iface{t: types.NewPointer(et), v: &cell}
+			}
+			return s
+		}
+	}
+	externals["fmt.Sprintf"] = fmtOpaque(1, false)
+	externals["fmt.Sprint"] = fmtOpaque(0, false)
+	externals["fmt.Sprintln"] = fmtOpaque(0, false)
+	externals["fmt.Errorf"] = fmtOpaque(1, true)
 }
